@@ -512,10 +512,6 @@ func snapshot(native *native.NativeService, number uint64, hash ecommon.Hash, ta
 		return
 	}
 
-	if lastSeenHeight > 0 {
-		return
-	}
-
 	// try to search enough recent
 	toSearch := len(snap.Signers) / 2
 	for i := 0; i < toSearch; i++ {
@@ -535,7 +531,9 @@ func snapshot(native *native.NativeService, number uint64, hash ecommon.Hash, ta
 			return
 		}
 		if targetSigner == signer {
-			lastSeenHeight = headerWS.Header.Number.Uint64()
+			if h := headerWS.Header.Number.Uint64(); h > lastSeenHeight {
+				lastSeenHeight = h
+			}
 			break
 		}
 		number, startHash = number-1, headerWS.Header.ParentHash
